@@ -176,6 +176,16 @@ func RunSafety(r sim.Src, mons []*sim.Mon, keepLog bool, sh Shape) *sim.World {
 	if r.Intn("dynblocktime", 5) == 0 {
 		cfg.MaxTimePerBlock = cfg.TimePerBlock * time.Duration(2+r.Intn("dynratio", 3)) // the maximum-block-time extension is configured
 	}
+	if r.Intn("blocktimebytip", 4) == 0 {
+		// chain-governed block times: every other height runs eight times faster
+		base, maxb := cfg.TimePerBlock, cfg.MaxTimePerBlock
+		cfg.BlockTimeByTip = func(tip uint32) (time.Duration, time.Duration) {
+			if tip%2 == 1 {
+				return base / 8, maxb / 8
+			}
+			return base, maxb
+		}
+	}
 	if r.Intn("saltedsigs", 2) == 1 {
 		cfg.SaltedSigs = true // signing twice gives two different valid signatures, as with the reference ECDSA
 	}
@@ -191,6 +201,9 @@ func RunSafety(r sim.Src, mons []*sim.Mon, keepLog bool, sh Shape) *sim.World {
 	}
 	if cfg.MaxTimePerBlock > 0 {
 		w.Stat("dynamic_block_time")
+	}
+	if cfg.BlockTimeByTip != nil {
+		w.Stat("block_time_follows_ledger")
 	}
 	w.FaultBudget = budget
 	heights := 1 + r.Intn("heights", max(1, sh.MaxHeights))
